@@ -620,6 +620,37 @@ func (ex *Exec) Verify() {
 		ex.unsupported("function %s has no body", fn.Name())
 		return
 	}
+	if fc != nil && (len(fc.Branches) > 0 || len(fc.RecvAssumes) > 0) {
+		// every branch / assume_recv label must name a select case that exists (a renamed receiver or
+		// channel would otherwise silently switch the clause off)
+		var texts []string
+		for _, b := range fn.Blocks {
+			for _, in := range b.Instrs {
+				if sel, ok := in.(*ssa.Select); ok {
+					for i := range sel.States {
+						texts = append(texts, ex.caseText(sel, i))
+					}
+					if !sel.Blocking {
+						texts = append(texts, "default")
+					}
+				}
+			}
+		}
+		check := func(label string) {
+			for _, t := range texts {
+				if strings.Contains(t, label) {
+					return
+				}
+			}
+			ex.errs = append(ex.errs, fmt.Sprintf("contract-binding: no select case of %s contains %q", fc.Key, label))
+		}
+		for label := range fc.Branches {
+			check(label)
+		}
+		for label := range fc.RecvAssumes {
+			check(label)
+		}
+	}
 	st := &State{Frames: map[int]*Frame{}, Heaps: map[string]Term{}, Globals: map[*ssa.Global]Val{}, Tags: map[string]types.Type{}, Base: "H0", PendingBase: map[string]string{}}
 	st.Top = ex.D.Const("top0", SInt)
 	st.Assume(Ge(st.Top, IntT(0)))
